@@ -770,6 +770,9 @@ def pbkdf2_hmac(digest: bytes, secret: bytes, salt: bytes, rounds: int, keylen=N
         # (e.g. blake2b with a non-default digest_size); hashlib would go by the name.
         return _pbkdf2_hmac_builtin(digest_info, secret, salt, rounds, keylen)
 
+    if rounds > 0x7FFFFFFF:
+        # hashlib would raise OverflowError ("iteration value is too great")
+        raise ValueError("rounds too large: hashlib's pbkdf2 takes at most 2**31-1")
     return hashlib.pbkdf2_hmac(digest_info.name, secret, salt, rounds, keylen)
 
 
